@@ -179,6 +179,15 @@ def pole_at_zero_definition():
             "process_noise": {"u": 0.25}, "sensor_noise": {"rate": {"r": 0.5, "inv": 1.0}}, "calibration_map": {}, "rational": True}
 
 
+def symbol_keyed_readings_definition(n_readings):
+    """readings keyed by Symbol, the way the project's own examples and tests write them (always with one reading there)"""
+    sm = {"x": add(var("x"), mul(var("dt"), var("v"))), "v": var("v")}
+    rd = {"ra": var("x"), "rb": var("v")}
+    rd = {k: rd[k] for k in list(rd)[:n_readings]}
+    return {"dt": "dt", "state": ["x", "v"], "control": [], "calibration": [], "state_model": sm, "sensors": {"pair": rd},
+            "process_noise": {}, "sensor_noise": {"pair": {k: 0.5 for k in rd}}, "calibration_map": {}, "rational": True}
+
+
 def large_int_calibration_definition():
     """calibration values given as (large) Python integers: sqrt(1 + c^2) with c = 2^32 needs c^2 = 2^64"""
     sm = {"w": add(var("w"), mul(var("dt"), fn("sqrt", add(num(1), powi(var("c"), 2))))), "s": add(var("s"), mul(var("dt"), fn("sin", mul(var("k"), var("s")))))}
